@@ -778,4 +778,80 @@ theorem endCollect_disk (s : MState) (k : Key) (hd : k ∈ s.declared) (hf : fil
   unfold Flushed at this
   rw [this, a1]
 
+/-! ### the header, and the calls that add no line -/
+
+/-- `_startTrace` on a trace without lines puts exactly the header of the loop order down to the
+    trace's level into the file buffer / the memory trace -/
+theorem startTrace_header (s : MState) (k : Key) (x : Slot) (i : Nat)
+    (hs : s.slots k = some x) (hl : levelOf s k.1 = some i)
+    (hc : content s k = []) (hm : memAll s k = []) :
+    content (startTrace s k) k = (if x.file.isSome then [headerOf (s.loopOrder.take (i + 1))] else []) ∧
+    memAll (startTrace s k) k = (if x.mem.isSome then [headerOf (s.loopOrder.take (i + 1))] else []) := by
+  have e1 := content_nil hc
+  unfold memAll at hm
+  have e2 := List.append_eq_nil_iff.1 hm
+  simp only [hs, Option.bind_some] at e1 e2
+  unfold startTrace
+  simp only [hl, hs]
+  cases hx : x.file <;> cases hy : x.mem <;> simp_all [content, memAll]
+
+theorem ecStep_content (s : MState) (k k' : Key) :
+    content (ecStep s k') k = content s k ∧ memAll (ecStep s k') k = memAll s k := by
+  unfold ecStep
+  cases hs : s.slots k' with
+  | none => exact ⟨rfl, rfl⟩
+  | some x =>
+    simp only
+    have h1 : content (if x.file.isSome then writeTrace s k' else s) k = content s k ∧
+        memAll (if x.file.isSome then writeTrace s k' else s) k = memAll s k := by
+      cases hx : x.file with
+      | none => exact ⟨rfl, rfl⟩
+      | some b =>
+        obtain ⟨a1, a2, _, _⟩ := writeTrace_content s k' x b hs hx k
+        exact ⟨a1, a2⟩
+    cases hm : x.mem with
+    | none => simpa using h1
+    | some m =>
+      cases m with
+      | nil => simpa using h1
+      | cons a m => exact h1
+
+theorem endCollect_content (s : MState) (k : Key) :
+    content (endCollect s) k = content s k ∧ memAll (endCollect s) k = memAll s k := by
+  rw [endCollect_eq]
+  generalize s.declared = l
+  induction l generalizing s with
+  | nil => exact ⟨rfl, rfl⟩
+  | cons a l ih =>
+    obtain ⟨a1, a2⟩ := ecStep_content s k a
+    obtain ⟨b1, b2⟩ := ih (ecStep s a)
+    exact ⟨b1.trans a1, b2.trans a2⟩
+
+/-- `incIter`, `endIter`, `matchRanks`, `consumeTrace`, `endCollect` add no line to any trace
+    (consumeTrace only moves memory lines to its caller) -/
+theorem step_keeps_lines (s : MState) (e : Ev) (k : Key)
+    (he : match e with | .inc _ => True | .endI _ => True | .matchR _ _ => True | .consume _ _ => True
+                       | .endCollect => True | _ => False) :
+    content (step s e) k = content s k ∧ memAll (step s e) k = memAll s k := by
+  cases e with
+  | trace r ty c => exact he.elim
+  | reg r => exact he.elim
+  | use r c pos ty ovr => exact he.elim
+  | inc r => simp only [step, incIter]; split <;> exact ⟨rfl, rfl⟩
+  | endI r => simp only [step, endIter]; split <;> exact ⟨rfl, rfl⟩
+  | matchR a b => exact ⟨rfl, rfl⟩
+  | endCollect => exact endCollect_content s k
+  | consume r ty =>
+    simp only [step, consumeTrace]
+    cases hs : s.slots (r, ty) with
+    | none => exact ⟨rfl, rfl⟩
+    | some x =>
+      cases hx : x.mem with
+      | none => simp only [hx]; exact ⟨rfl, rfl⟩
+      | some m =>
+        simp only [hx]
+        by_cases hk : k = (r, ty)
+        · subst hk; simp [content, memAll, hs, hx]
+        · simp [content, memAll, upd_other _ _ _ _ hk]
+
 end Ft.C16
